@@ -40,7 +40,7 @@ m = {
                  "kind_free_text": "explicit-state explorer over the real cat.c: memcpy snapshots, 128-bit visited set, choice points in io/handler/mutex callbacks, incremental reference model and monitors"}],
     "checks": checks,
     "not_applicable": na,
-    "notes": "Five genuine defects of the pinned tree were repaired by 'fix:' commits in /repo (see known_findings.txt and DESIGN.md section 2).",
+    "notes": "Six genuine defects of the pinned tree were repaired by 'fix:' commits in /repo (F1-F5 announced by the property texts, F6 found by the C12 check; see known_findings.txt and DESIGN.md section 2).",
 }
 json.dump(m, open(os.path.join(HERE, "MANIFEST.json"), "w"), indent=1)
 print("claimed:", [c["property_id"] for c in checks], "not claimed:", [x["property_id"] for x in na])
